@@ -374,12 +374,19 @@ def run(rep):
              'index by the current size and hold each hook across its call (a stale '
              'bound crashes the interpreter where the reference continues; shared '
              'with C14 R14.7)', floor=1)
+    rep.rule('F13', 'virtual dispatch parity: a method the Python __adapt__ calls ON '
+             'self (overridable with @interfacemethod) is either a method call in the C '
+             'twin too, or the class writer routes interfaces overriding it to the Python '
+             '__adapt__ (the C twin inlines the default implementation; shared with C14 '
+             'R14.8)', floor=1)
     rep.decline('equality of results, exception points and subsequent '
                 'behaviour for arbitrary API programs (that is differential '
                 'execution; only the structural core is decided)')
 
     # ---- F1 -----------------------------------------------------------------------
     lookup_signatures(rep, u, amod, 'F1')
+    from . import csem as _csem13
+    _csem13.adapt_dispatch(rep, 'F13', u, imod)
     lb = find_def(amod, 'LookupBase')
     vb = find_def(amod, 'VerifyingBase')
     lms = methods_of(lb)
